@@ -94,11 +94,15 @@ pub fn print_child(threads: usize, calls: usize, stream: &str) {
                             let mut rec = frag(t, c, 1, 2, &pad).into_bytes();
                             rec.extend_from_slice(b"\xe2\x82");
                             let rest = b"\xac\n";
+                            // (between the two calls on the kept object the same thread prints a record through another object: whatever
+                            // the first call owed has to be out by then - on any schedule)
                             if stream == "stdout" {
                                 kept_out.write_all(&rec).unwrap();
+                                lit_print!(print, t);
                                 kept_out.write_all(rest).unwrap();
                             } else {
                                 kept_err.write_all(&rec).unwrap();
+                                lit_print!(eprint, t);
                                 kept_err.write_all(rest).unwrap();
                             }
                         }
@@ -109,11 +113,15 @@ pub fn print_child(threads: usize, calls: usize, stream: &str) {
                             let mut rec = frag(t, c, 1, if pass { 2 } else { 1 }, &pad).into_bytes();
                             rec.extend_from_slice(b"\x1b[");
                             let rest = b"0m\n";
+                            // (between the two calls on the kept object the same thread prints a record through another object: whatever
+                            // the first call owed has to be out by then - on any schedule)
                             if stream == "stdout" {
                                 kept_out.write_all(&rec).unwrap();
+                                lit_print!(print, t);
                                 kept_out.write_all(rest).unwrap();
                             } else {
                                 kept_err.write_all(&rec).unwrap();
+                                lit_print!(eprint, t);
                                 kept_err.write_all(rest).unwrap();
                             }
                         }
